@@ -178,7 +178,7 @@ pub fn run(ctx: &Ctx, out: &mut CaseOut) {
                                         Some("slg:stale-delayed-answer-table")
                                     } else if is_slg && fj.is_none() && a.is_some() && fresh_slg_stale(&l, &pj.goal) {
                                         Some("slg:stale-delayed-answer-table")
-                                    } else if is_slg && log.is_empty() && ((ambig(fj) && matches!(&a, Some(Solution::Unique(_)))) || (fj.is_some() && a.is_none())) && slg_unrefined_root_answer(&mut slg_s, &pj.goal) {
+                                    } else if is_slg && ((ambig(fj) && matches!(&a, Some(Solution::Unique(_)))) || (fj.is_some() && a.is_none())) && slg_unrefined_root_answer(&mut slg_s, &pj.goal) {
                                         // F33: the fault hit between publishing a conditional root answer and queueing its
                                         // refinement strand (stack already empty, so nothing is restored by Drop)
                                         Some("slg:refinement-strand-lost-on-panic")
